@@ -457,6 +457,12 @@ func mApply(s *mState, a []string) string {
 		if c == nil {
 			return eKey
 		}
+		// refused, and nothing changes, while a hook or channel is defined on either key
+		for _, hk := range sortedKeys(s.Hooks) {
+			if k := s.Hooks[hk].fenceKey(); k != "" && (k == a[1] || k == a[2]) {
+				return "~err:key has"
+			}
+		}
 		nx := cmd == "renamenx"
 		if nx && s.Cols[a[2]] != nil {
 			return ":0"
@@ -1063,3 +1069,16 @@ func mJSONDel(raw string, path []string) (string, bool) {
 }
 
 var _ = sort.Strings
+
+// fenceKey: the collection a hook / channel definition watches (the token after
+// NEARBY / WITHIN / INTERSECTS in its specification).
+func (h *mHook) fenceKey() string {
+	f := strings.Fields(h.Spec)
+	for i := 0; i+1 < len(f); i++ {
+		switch strings.ToUpper(f[i]) {
+		case "NEARBY", "WITHIN", "INTERSECTS":
+			return f[i+1]
+		}
+	}
+	return ""
+}
